@@ -501,5 +501,7 @@ zv_harness! {
     targets: "encode_matches, decode_matches (has_bits loop over trailing pad bits), encode_match, decode_match, BitWriter, BitReader",
     bounds: "one concrete sequence: [Far2Long { distance: 100, length: 40 }] (no symbolic input)",
     oracle: "encode_matches Ok, 27 bits, bytes == [38, 3, 96, 0]; decode_matches of those bytes is Ok and returns exactly the input sequence and 27 bits",
+    flags: [twin],
+    kf: "c02_decode_matches_pad_bits",
     body: { seq1_far2long_fixed() }
 }
